@@ -244,14 +244,24 @@ func ReplayResub(idx int, c *RCase, mode string, out *[]Mismatch) {
 	var log []string
 	nilctx := false
 	obs := ro.NewObserverWithContext(
-		func(ctx context.Context, v any) { mu.Lock(); log = append(log, "N:"+cat.Canon(v)); nilctx = nilctx || ctx == nil; mu.Unlock() },
+		func(ctx context.Context, v any) {
+			mu.Lock()
+			log = append(log, "N:"+cat.Canon(v))
+			nilctx = nilctx || ctx == nil
+			mu.Unlock()
+		},
 		func(ctx context.Context, err error) {
 			mu.Lock()
 			log = append(log, fmt.Sprintf("E:%d", attemptCause(err)))
 			nilctx = nilctx || ctx == nil
 			mu.Unlock()
 		},
-		func(ctx context.Context) { mu.Lock(); log = append(log, "C:0"); nilctx = nilctx || ctx == nil; mu.Unlock() },
+		func(ctx context.Context) {
+			mu.Lock()
+			log = append(log, "C:0")
+			nilctx = nilctx || ctx == nil
+			mu.Unlock()
+		},
 	)
 	done := make(chan ro.Subscription, 1)
 	go func() {
